@@ -278,11 +278,16 @@ class Harness:
             if c in byc:
                 picks.append(byc[c][0])
         for i, a in enumerate(self.acts):
-            if len(picks) >= 6:
+            if len(picks) >= 5:
                 break
             if a.kind in ("exploit", "service_scan") and not self.spec.public(a.target[0]) and i not in picks:
                 picks.append(i)
-        return [self.acts[i] for i in picks[:6]]
+        # ... and a subnet scan from a compromised host (what it discovers depends on that host's subnet only)
+        for i, a in enumerate(self.acts):
+            if a.kind == "subnet_scan" and mst[a.target][0] and i not in picks:
+                picks.append(i)
+                break
+        return [self.acts[i] for i in picks[:7]]
 
     def probe_signature(self, state, mst):
         from .oracles import canon_info
@@ -416,7 +421,8 @@ class Harness:
                 base = self.choose(("n", idx % 9, idx // 9), mst)
             else:
                 base = self.choose(("f", idx), mst)
-            req = M.ROOT if var % 5 < 3 else M.USER
+            # (NONE: no access level required - the host must still be a compromised one)
+            req = [M.ROOT, M.ROOT, M.USER, M.NONE, M.ROOT][var % 5]
             prob = [None, None, None, 0.5, 1.0, 0.25, 0.0][(var // 5) % 7]
             cost = [None, None, 7.5, 0.0][(var // 35) % 4]
             return base.variant(req=req, prob=prob, cost=cost)
@@ -691,7 +697,11 @@ def run_history(h, ops, on_rec, on_reset=None, both_sides=True, do_gen=True):
             # progress / near-miss / any flat action in that EARLIER state: the result must depend
             # on (state, action) only, whatever the environment object did in between
             sub = op[2] % 3
-            if sub == 0:
+            scanners = [a for a in h.acts if a.kind == "subnet_scan" and mst[a.target][0]]
+            if op[2] % 8 == 7 and scanners:
+                # a subnet scan from a compromised host of THAT state, whether or not it still discovers anything there
+                act = scanners[(op[2] // 8) % len(scanners)]
+            elif sub == 0:
                 act = h.choose(("p", op[2] // 3), mst)
             elif sub == 1:
                 act = h.choose(("n", (op[2] // 3) % 9, op[2] // 27), mst)
